@@ -697,7 +697,8 @@ MANIFEST = {
             "opposite serializer order. State carried over between calls: after each malformed "
             "octet string of an enumerated menu (every proper prefix of a serialized message, "
             "trailing octets, reserved octets) was handed to a serializer, valid messages still "
-            "round trip through the same serializer objects.",
+            "round trip through the same serializer objects."
+            " The JSON serializer's hex mode for binaries is judged as two further configurations (text values starting with '0x' excluded there).",
     "note": "Trusted: ref/wamp_grammar.py (valid shapes, equivalence rules listed in "
             "ASSUMPTIONS), the third-party codecs cbor2/msgpack/bjdata/json. Not exhaustive in "
             "values: one boundary value per field inside multi-field subsets. FlatBuffers not "
